@@ -11,15 +11,15 @@ from .common import gen_cuts, gen_knobs, pick
 from .hist import Index
 
 MAJORS = [0, 1, 2, 3, 4]
-MINORS = [0, 10]
-API_NAMES = ["", "simdev", "other", "sïmdëv"]
-NOISE_NAMES = [None, "simdev", "other", ""]
+MINORS = [0, 10, 11, 4294967295]
+API_NAMES = ["", "simdev", "other", "sïmdëv", "SimDev", "sim_dev"]
+NOISE_NAMES = [None, "simdev", "other", "", "SIMDEV", "sim_dev"]
 ORDERS = ["normal", "split", "reversed", "dup_hello", "one_by_one"]
 
 
 def matrix() -> list[tuple]:
     out = []
-    for major, minor, api_name, expected, login, bad_pw in itertools.product(MAJORS, MINORS, API_NAMES, [None, "simdev"], [False, True], [False, True]):
+    for major, minor, api_name, expected, login, bad_pw in itertools.product(MAJORS, MINORS, API_NAMES, [None, "simdev", "sim-dev"], [False, True], [False, True]):
         for nname in NOISE_NAMES:
             out.append((major, minor, api_name, nname, expected, login, bad_pw))
     return out
@@ -151,22 +151,26 @@ class C06(CheckBase):
     pid = "C06"
     level = "exploration"
     quick_cases = 6400
-    thorough_cases = len(_MATRIX) * 2
+    thorough_cases = len(_MATRIX) * 2 * len(ORDERS) * 2
 
     def cases(self, rng: random.Random, tier: str, idx: int) -> Iterable[dict]:
         if tier == "thorough":
+            # every (combination, transport, reply order) twice (chunking, latencies, trailers, name-setter seeded)
             combo = _MATRIX[idx % len(_MATRIX)]
-            transport = "noise" if (idx // len(_MATRIX)) % 2 else "plaintext"
+            k = idx // len(_MATRIX)
+            transport = "noise" if k % 2 else "plaintext"
+            order = ORDERS[(k // 2) % len(ORDERS)]
         else:
             combo = _MATRIX[rng.randrange(len(_MATRIX))]
             transport = pick(rng, ["plaintext", "noise"])
-        yield build(rng, combo, transport, pick(rng, ORDERS, [4, 2, 1, 1, 2]))
+            order = pick(rng, ORDERS, [4, 2, 1, 1, 2])
+        yield build(rng, combo, transport, order)
 
     def oracle(self, run: Any, scn: dict) -> list[Violation]:
         return handshake_oracle(Index(run.history), scn)
 
     def extra_evidence(self, stats: dict) -> dict:
-        return {"matrix_size": len(_MATRIX), "matrix_note": "thorough enumerates every (major, minor, api name, noise name, expected name, login, verdict) combination once per transport; chunking / reply order / latency are seeded per run"}
+        return {"matrix_size": len(_MATRIX), "matrix_note": "thorough enumerates every (major, minor, api name, noise name, expected name, login, verdict) combination x transport x reply order twice; chunking / latency / trailers are seeded per run"}
 
 
 CHECK = C06()
